@@ -95,6 +95,16 @@ Theorem C07_lines_complete_tagged : forall tag st text rest,
 Proof. exact tagged_line_complete. Qed.
 Print Assumptions C07_lines_complete_tagged.
 
+(* the exception arm (text = " ".join(str(e).split())): complete for every exception text
+   that has no NUL; a NUL would be passed through — no reachable instance is known, see the
+   MANIFEST note *)
+Theorem C07_lines_complete_exception : forall tag text rest,
+  no_forbidden tag -> no_nul text ->
+  read_text_line (exc_line tag text ++ rest) =
+  Some (tag ++ [SP] ++ EXC_PREFIX ++ ws_collapse text, rest).
+Proof. exact exc_line_complete. Qed.
+Print Assumptions C07_lines_complete_exception.
+
 Theorem C07_clean_text_identity : forall t, no_forbidden t -> clean_text t = t.
 Proof. exact clean_id. Qed.
 Print Assumptions C07_clean_text_identity.
